@@ -71,6 +71,33 @@ def build_cases(ctx):
                                 cases.append(dict(doc='\n'.join(lines), expect='gotwant', fail_stmt=2, trace=[10, 11, 12], corruption='stale-before-ignored-want', fail_line=None))
                             else:
                                 cases.append(dict(doc='\n'.join(lines), expect='pass', trace=[10, 11, 12], variants=['ignore_want:' + name]))
+    # ... also when the inline directive stands on a statement of several lines one of which holds only a remark (first or
+    # last line carrying the directive): the switch ends with that statement, the next want is compared again
+    for dir_last in (False, True):
+        for k2 in ('print', 'expr', 'printexpr'):
+            for flag, ignored_want in (('+IGNORE_WANT', 'anything at all'), ('+IGNORE_WANT', 'o11a 11')):
+                stmts = [gendoc.Stmt('print', 10), gendoc.Stmt('print', 11), gendoc.Stmt(k2, 12)]
+                first = ">>> print('o11a',"
+                last = '...       t(11))'
+                if dir_last:
+                    last += '  # xdoctest: ' + flag
+                else:
+                    first += '  # xdoctest: ' + flag
+                mid = ['...       # a remark about the next argument']
+                good = gendoc.correct_wants(stmts, 2, 2)
+                for name, text in sorted(good.items()):
+                    for stale in (False, True):
+                        w2 = (stmts[0].out + text) if stale else text
+                        lines = stmts[0].render() + [first] + mid + [last] + (ignored_want.split('\n') if ignored_want else [])
+                        lines += stmts[2].render() + w2.rstrip('\n').split('\n')
+                        if stale:
+                            cases.append(dict(doc='\n'.join(lines), expect='gotwant', fail_stmt=2, trace=[10, 11, 12], corruption='stale-before-ignored-want-multiline', fail_line=None))
+                        else:
+                            cases.append(dict(doc='\n'.join(lines), expect='pass', trace=[10, 11, 12], variants=['ignore_want_multiline:' + name]))
+                        wrong = dict(doc='\n'.join(lines[:-len(w2.rstrip('\n').split('\n'))] + ['definitely not this']), expect='gotwant', fail_stmt=2, trace=[10, 11, 12],
+                                     corruption='wrong-after-ignored-want-multiline', fail_line=None)
+                        if not stale:
+                            cases.append(wrong)
     # the same doctests written with Windows line ends (text read with newline='', a docstring that spells \\r\\n): the same verdicts
     for i, c in enumerate(list(cases)):
         if i % 9 == 4 and '\r' not in c['doc']:
